@@ -10,8 +10,9 @@ EXTENDS Curves, TLC, Json
 
 CONSTANTS NPieces, Tops, Lens, Incs, Dir, ShiftBy, Views, Emit
 
-DirDown == -1
-DirUp == 1
+DirDown == {-1}
+DirUp == {1}
+DirBoth == {-1, 1}
 VARIABLES coll, phase, base
 vars == <<coll, phase, base>>
 
@@ -23,14 +24,14 @@ TimesOf(incs) == [k \in 1..(Len(incs) + 1) |->
 Init ==
     /\ phase = "pick"
     /\ base = [judged |-> FALSE]
-    /\ \E n \in NPieces : \E tops \in [1..n -> Tops] :
-         coll = [i \in 1..n |-> [id |-> i, top |-> tops[i], dir |-> Dir, t |-> <<0, 1>>]]
+    /\ \E n \in NPieces : \E tops \in [1..n -> Tops], dirs \in [1..n -> Dir] :
+         coll = [i \in 1..n |-> [id |-> i, top |-> tops[i], dir |-> dirs[i], t |-> <<0, 1>>]]
 
 (* choose every piece (second phase so that TLC's workers share the work)  *)
 Pick ==
     /\ phase = "pick"
     /\ \E ts \in [1..Len(coll) -> UNION {{TimesOf(ic) : ic \in [1..m -> Incs]} : m \in Lens}] :
-            coll' = [i \in 1..Len(coll) |-> [id |-> i, top |-> coll[i].top, dir |-> Dir, t |-> ts[i]]]
+            coll' = [i \in 1..Len(coll) |-> [id |-> i, top |-> coll[i].top, dir |-> coll[i].dir, t |-> ts[i]]]
     /\ phase' = "view"
     /\ base' = Result(coll')          \* the result in the first presentation
 
